@@ -557,7 +557,23 @@ func treeCase(r *rand.Rand, base string, idx int, bin string) {
 		run.Violation(fmt.Sprintf("%s flags=%v tree=%q", kind, flags, ps), kind+": "+detail, tcase{kind, flags, files, detail, stderr})
 	}
 	var arch, stderr bytes.Buffer
+	// the tree is named by its absolute path, or - from inside it or from beside it - by a relative one
 	c := exec.Command(filepath.Join(bin, "txtar-c"), append(flags, src)...)
+	switch r.Intn(5) {
+	case 0:
+		c = exec.Command(filepath.Join(bin, "txtar-c"), append(flags, ".")...)
+		c.Dir = src
+	case 1:
+		c = exec.Command(filepath.Join(bin, "txtar-c"), append(flags, "./")...)
+		c.Dir = src
+	case 2:
+		c = exec.Command(filepath.Join(bin, "txtar-c"), append(flags, filepath.Base(src))...)
+		c.Dir = filepath.Dir(src)
+	case 3:
+		c = exec.Command(filepath.Join(bin, "txtar-c"), append(flags, "./"+filepath.Base(src)+"/")...)
+		c.Dir = filepath.Dir(src)
+	}
+	flags = append(flags, "tree named "+c.Args[len(c.Args)-1])
 	c.Stdout, c.Stderr = &arch, &stderr
 	if err := c.Run(); err != nil {
 		fail("txtar-c-failed", fmt.Sprintf("txtar-c %v: %v", flags, err), stderr.String())
@@ -667,7 +683,7 @@ func treeCase(r *rand.Rand, base string, idx int, bin string) {
 func main() {
 	vlib.Main("C15", "exploration", 10*time.Minute, func(r *vlib.Run) {
 		run = r
-		r.Rule("Write: archives of 1-6 entries whose names are 1-5 segments from {a,b,.,..,empty,'c d',é,..a,a..,...,sib,dir} joined by '/', optionally absolute or of the form ../dir/..., with duplicates, against a directory with random pre-existing files and, in a quarter of the cases, a symbolic link (dangling towards outside / inside, or to an existing file) at the path of one entry; the directory sits two levels deep in a sandbox with canary files beside and above it. Concurrent extraction: 2-4 Write calls of archives naming the same files into one fresh directory at once (one creator per file). Extraction under fault: the real txtar-x under strace with every write from the k-th on failing with ENOSPC must exit non-zero or have written every file exactly. Round trip: trees of 1-14 text files (nested, dot files/dirs, marker look-alikes, no final newline, empty, invalid UTF-8, CRLF, symlink, empty dir) archived with the real txtar-c (random -a/-quote) and extracted with the real txtar-x. Non-trivial = distinct (names, pre-existing set) / distinct (tree, flags).")
+		r.Rule("Write: archives of 1-6 entries whose names are 1-5 segments from {a,b,.,..,empty,'c d',é,..a,a..,...,sib,dir} joined by '/', optionally absolute or of the form ../dir/..., with duplicates, against a directory with random pre-existing files and, in a quarter of the cases, a symbolic link (dangling towards outside / inside, or to an existing file) at the path of one entry; the directory sits two levels deep in a sandbox with canary files beside and above it. Concurrent extraction: 2-4 Write calls of archives naming the same files into one fresh directory at once (one creator per file). Extraction under fault: the real txtar-x under strace with every write from the k-th on failing with ENOSPC must exit non-zero or have written every file exactly. Round trip: trees of 1-14 text files (nested, dot files/dirs, marker look-alikes, no final newline, empty, invalid UTF-8, CRLF, symlink, empty dir) archived with the real txtar-c (random -a/-quote; the tree named by its absolute path, '.', './', its base name or './name/') and extracted with the real txtar-x. Non-trivial = distinct (names, pre-existing set) / distinct (tree, flags).")
 		r.Assume("file names in trees contain no newline and no leading/trailing blanks (the format cannot carry those); no symlinked directories on the way to an entry inside the target directory of Write (containment is lexical)")
 		base := vlib.Scratch()
 		W := runtime.NumCPU()
